@@ -262,7 +262,12 @@ def inplace_store_scan(tier, seed):
 def _import_run_level():
     from contracts.C07_block import RestartBlock, RecvFull
     from contracts.C02_sweep import CONTRACTS as C02C
+    from contracts.C02_dae import CONTRACTS as C02D
+    from contracts.C02_boris import CONTRACTS as C02B
+    from contracts.C02_rkimex import CONTRACTS as C02R
     from contracts.C14_stats import LogSolutionPostStep
+
+    C02C = list(C02C) + list(C02D) + list(C02B) + list(C02R)
 
     out = []
     for base in [RestartBlock, RecvFull, LogSolutionPostStep] + [c for c in C02C if c.__name__.endswith('compute_end_point') or 'EndPoint' in c.__name__]:
